@@ -1,8 +1,8 @@
 package rules
 
 import (
-	"go/token"
 	"go/ast"
+	"go/token"
 	"go/types"
 	"sort"
 	"strings"
